@@ -409,6 +409,115 @@ def check_project_constraints(model, rep):
     rep.ob('R14.7', f.key, f.where(sv[0]) if sv else f.where(), ok, 'the least-squares system is solved with the prescribed values as constraints', statement='solve-constrained')
 
 
+def check_residual_provenance(model, rep):
+    """R14.8: System.solve certifies convergence with the residual norm that an iteration method reports next to a state.  In every
+    method class (`__call__(self, system, ...)`) of solver.py the norm handed out with system.construct(arguments, X) must be the norm
+    of a residual assembled AT X (system.assemble_*residual*(arguments, X), with X not updated since) - followed per path as a small
+    typestate: which residual variables are 'the true residual at' which state variables.  A norm of a linear MODEL of the residual
+    (res - jac @ dx, least-squares remainder) is exact only for linear systems, so such a method must refuse non-linear systems first."""
+    mod = model.module('solver')
+    nmeth = nsites = 0
+    for c in mod.classes.values():
+        mem = c.members.get('__call__')
+        if mem is None or mem.func is None:
+            continue
+        f = mem.func
+        pos, kwonly, _, _ = params(f.node)
+        if pos[:2] != ['self', 'system']:
+            continue
+        nmeth += 1
+
+        def handed(e):
+            # (state variable, norm expression) of `system.construct(arguments, X), N`
+            if isinstance(e, ast.Tuple) and len(e.elts) == 2 and isinstance(e.elts[0], ast.Call) and src(e.elts[0].func) == 'system.construct' and len(e.elts[0].args) == 2 and isinstance(e.elts[0].args[1], ast.Name):
+                return e.elts[0].args[1].id, e.elts[1]
+            return None
+
+        def on_stmt(s_, st):
+            evs = []
+            v = s_.value if isinstance(s_, (ast.Assign, ast.Expr, ast.Return, ast.AugAssign)) else None
+            if isinstance(s_, ast.Assign) and isinstance(v, ast.Call) and src(v.func).startswith('system.assemble_') and len(v.args) == 2 and isinstance(v.args[1], ast.Name):
+                names = [n.id for t in s_.targets for n in ast.walk(t) if isinstance(n, ast.Name)]
+                evs.append(Event('ASSEMBLE', s_, (v.args[1].id, names, src(v.func))))
+            elif isinstance(s_, ast.Assign) and len(s_.targets) == 1 and isinstance(s_.targets[0], ast.Name):
+                evs.append(Event('SET', s_, (s_.targets[0].id, v)))
+            elif isinstance(s_, ast.Assign):
+                for t in s_.targets:
+                    for n in ast.walk(t):
+                        if isinstance(n, ast.Name) and isinstance(n.ctx, ast.Store):
+                            evs.append(Event('SET', s_, (n.id, None)))
+            elif isinstance(s_, ast.AugAssign) and isinstance(s_.target, ast.Name):
+                evs.append(Event('UPDATE', s_, s_.target.id))
+            y = None
+            if isinstance(s_, ast.Expr) and isinstance(s_.value, ast.Yield) and s_.value.value is not None:
+                y = handed(s_.value.value)
+            elif isinstance(s_, ast.Return) and s_.value is not None:
+                y = handed(s_.value)
+            if y is not None:
+                evs.append(Event('HAND', s_, y))
+            return evs
+        paths = PathEnumerator(f.node, on_stmt=on_stmt, unroll=2, max_states=400000, emit_truncated=True).paths()   # generators that loop forever: prefixes cut at two iterations
+        guard = any(isinstance(g, ast.If) and src(g.test).replace(' ', '') == 'notsystem.is_linear' and any(isinstance(b, ast.Raise) for b in g.body) for g in f.node.body)
+        model_sites, stale_sites, true_sites = {}, {}, set()
+        for p in paths:
+            at = {}     # variable -> set of state variables at which it is the true residual (or its norm)
+            for e in p.events:
+                k = e.kind
+                if k == 'ASSEMBLE':
+                    state, names, fn = e.data
+                    for nme in names:
+                        at[nme] = {state}
+                elif k == 'UPDATE':
+                    v = e.data
+                    at.pop(v, None)          # the variable itself changed in place (res -= ...): no longer an assembled residual
+                    for s2 in at.values():
+                        s2.discard(v)        # a state changed in place (x -= dx): residuals assembled at it are stale
+                elif k == 'SET':
+                    tgt, val = e.data
+                    for s2 in at.values():
+                        s2.discard(tgt)
+                    if isinstance(val, ast.Name):
+                        if val.id in at:
+                            at[tgt] = set(at[val.id])      # res = newres
+                        else:
+                            at.pop(tgt, None)
+                            for s2 in at.values():         # x = newx: what was assembled at newx is now at x too
+                                if val.id in s2:
+                                    s2.add(tgt)
+                    elif isinstance(val, ast.Call) and src(val.func) == 'numpy.linalg.norm' and len(val.args) == 1 and isinstance(val.args[0], ast.Name) and val.args[0].id in at:
+                        at[tgt] = set(at[val.args[0].id])  # resnorm = norm(res)
+                    else:
+                        at.pop(tgt, None)
+                elif k == 'HAND':
+                    state, nexpr = e.data
+                    inner = nexpr.args[0] if isinstance(nexpr, ast.Call) and src(nexpr.func) == 'numpy.linalg.norm' and len(nexpr.args) == 1 else nexpr
+                    key = e.node.lineno
+                    if isinstance(inner, ast.Name) and state in at.get(inner.id, ()):
+                        true_sites.add(key)
+                    elif isinstance(inner, ast.Name) and inner.id in at:
+                        stale_sites[key] = (e.node, f'`{src(nexpr)}` is the residual assembled at {sorted(at[inner.id]) or "a state that has since been updated"}, handed out with the state `{state}`')
+                    else:
+                        model_sites[key] = (e.node, f'`{src(nexpr)}` is not the norm of a residual assembled at `{state}` (a linear model of the residual)')
+        for key, (node, why) in stale_sites.items():
+            nsites += 1
+            rep.ob('R14.8', f.key, f.where(node), False, why + ': System.solve compares this norm with the tolerance, so it certifies a state whose residual was never evaluated', statement=f'residual-at-state@{_ordinal_line(f, node)}')
+        for key, (node, why) in model_sites.items():
+            nsites += 1
+            rep.ob('R14.8', f.key, f.where(node), guard, why + '; the method refuses non-linear systems first, for which the model is exact' if guard else
+                   why + ' and the method does not refuse non-linear systems (`if not system.is_linear: raise`): for a non-linear system one linearised step is reported as converged and System.solve returns it', statement=f'residual-model-guarded@{_ordinal_line(f, node)}')
+        for key in true_sites - set(stale_sites) - set(model_sites):
+            nsites += 1
+        if true_sites:
+            rep.ob('R14.8', f.key, f.where(), not stale_sites, f'{len(true_sites)} hand-out site(s) report the norm of the residual assembled at the state they hand out, on all {len(paths)} paths', statement='residual-at-state')
+    if nmeth < 7 or nsites < 9:
+        raise AnalysisError(f'R14.8: only {nmeth} method classes / {nsites} hand-out sites found in solver.py')
+
+
+def _ordinal_line(f, node):
+    ys = sorted({n.lineno for n in ast.walk(f.node) if isinstance(n, (ast.Yield, ast.Return))})
+    return ys.index(node.lineno) if node.lineno in ys else node.lineno
+
+
 def thorough_discovery(model, rep):
     '''Every function of solver.py and matrix/* that compares something with a tolerance.'''
     for key, f in sorted(model.functions.items()):
@@ -440,6 +549,7 @@ def run(model, rep, tier):
     rep.rule('R14.4', 'constraint writes touch exactly the prescribed / free entries')
     rep.rule('R14.5', 'who-may-call: backend solvers only behind the residual gate')
     rep.rule('R14.6', 'sub-matrix and preconditioner caches are keyed on everything they depend on (= R15.6)')
+    rep.rule('R14.8', 'the residual norm an iteration method reports belongs to the state it hands out; linear-model norms only for linear systems')
     rep.rule('R14.7', 'Topology.project never overwrites prescribed constraint values')
     for key in GATES:
         check_gate(model, rep, key)
@@ -451,6 +561,7 @@ def run(model, rep, tier):
     check_constraint_writes(model, rep)
     check_who_may_call(model, rep)
     check_project_constraints(model, rep)
+    check_residual_provenance(model, rep)
     from rules.c15 import check_base_operators
     check_base_operators(model, _Only(rep, {'R15.6': 'R14.6'}, keep=('submatrix-cache', 'precon-cache')))
     rep.require('R14.1', 8)
